@@ -21,4 +21,5 @@ import (
 	_ "verif/props/c17"
 	_ "verif/props/c18"
 	_ "verif/props/c19"
+	_ "verif/props/c20"
 )
